@@ -340,6 +340,17 @@ class StmtMixin:
             return
         raise Undecided('loop target')
 
+    def st_With(self, s, p):
+        # with open(name) as f: ...   (T8: the handle iterates over the lines of the file; closing is not modelled)
+        if len(s.items) != 1: raise Undecided('with: several items')
+        it = s.items[0]
+        v = self.ev(it.context_expr, p)
+        if not (isinstance(v, VExt) and v.tag == 'file'): raise Undecided('with: not a file')
+        if it.optional_vars is not None:
+            if not isinstance(it.optional_vars, ast.Name): raise Undecided('with target')
+            p.env[it.optional_vars.id] = v
+        return self.exec_block(s.body, [p])
+
     def st_For(self, s, p):
         if s.orelse: raise Undecided('for-else')
         ordinal = self.fn.loops[id(s)]
